@@ -1,25 +1,424 @@
-//! C21 — not built yet (stub).
+//! C21 — highlights are well-formed for any text.
+//!
+//! One case = a small corpus of random texts over ASCII / Latin-1 / CJK / emoji alphabets (one
+//! stored text field `body`), a query built from one document's own words, a per-field
+//! highlight request (fragment size 2·|longest query word| .. 80 bytes, 1..4 fragments, tags)
+//! and the legacy `highlight_field` snippet in the same search.  One evaluation per hit.
+//!
+//! Finder (implementation alone), for every returned fragment and snippet: non-empty; contains
+//! `pre X post` with non-empty `X`; with all tags removed it is a substring of the stored text;
+//! at most `fragment_size` characters; at most `number_of_fragments` fragments; the tagged text is,
+//! as a whole, a match of the query's terms/phrases.
+//! Correspondence: `SL.Highlight.fieldHighlights/makeSnippet (sliceCode)` vs the implementation,
+//! byte for byte; the regex results the model takes as inputs (`find_at` on the text, matches
+//! inside each fragment) come from the real `regex` crate with the pattern built as in
+//! `index/highlight.rs`; the hypotheses of the theorems about those inputs (`RegexOk`) are
+//! evaluated on every case.
+use crate::idx;
 use crate::proto::Driver;
 use crate::rng::Rng;
 use crate::summary::Summary;
+use crate::util::{hex, scratch, unhex};
 use crate::{Prop, Tier};
+use regex::{Regex, RegexBuilder};
 use serde_json::{json, Value};
 
-pub struct Stub;
-pub static P: Stub = Stub;
+pub struct C21;
+pub static P: C21 = C21;
 
-impl Prop for Stub {
+const ASCII_W: [&str; 14] = ["rust", "Search", "engine", "fast", "lite", "index", "Query", "x", "go", "token", "b2", "cache", "Zig", "heap"];
+const LATIN_W: [&str; 8] = ["é", "über", "niño", "café", "façade", "smörgås", "àé", "ñ"];
+const CJK_W: [&str; 6] = ["日本", "検索", "語", "東京都", "全文", "引擎"];
+const EMOJI: [&str; 4] = ["😀", "🚀", "🔍", "✨"];
+const SEPS: [&str; 6] = [" ", " ", ", ", ". ", " - ", "; "];
+
+fn schema_json() -> Value {
+  json!({"doc_id_field": "_id", "text_fields": [{"name": "body", "analyzer": "default", "stored": true, "indexed": true}], "keyword_fields": [], "numeric_fields": []})
+}
+
+fn gen_word(rng: &mut Rng, alpha: usize) -> String {
+  // alpha: 0 ascii, 1 latin-1 mix, 2 cjk mix, 3 everything
+  let pick_ascii = |rng: &mut Rng| rng.pick(&ASCII_W).to_string();
+  match alpha {
+    0 => pick_ascii(rng),
+    1 => if rng.chance(1, 2) { rng.pick(&LATIN_W).to_string() } else { pick_ascii(rng) },
+    2 => if rng.chance(1, 2) { rng.pick(&CJK_W).to_string() } else { pick_ascii(rng) },
+    _ => match rng.below(3) { 0 => rng.pick(&LATIN_W).to_string(), 1 => rng.pick(&CJK_W).to_string(), _ => pick_ascii(rng) },
+  }
+}
+
+fn gen_text(rng: &mut Rng, alpha: usize) -> String {
+  let span = if rng.chance(1, 3) { 40 } else { 14 };
+  let n = 2 + rng.below(span);
+  let mut t = String::new();
+  // sometimes a long run of one multi-byte word first (pushes later windows off boundaries)
+  if alpha != 0 && rng.chance(1, 4) {
+    let w = if alpha == 2 { *rng.pick(&CJK_W) } else { *rng.pick(&LATIN_W) };
+    for _ in 0..(3 + rng.below(20)) {
+      t.push_str(w);
+    }
+    t.push(' ');
+  }
+  for i in 0..n {
+    if i > 0 {
+      t.push_str(*rng.pick(&SEPS));
+    }
+    if alpha == 3 && rng.chance(1, 5) {
+      t.push_str(*rng.pick(&EMOJI));
+      t.push(' ');
+    }
+    t.push_str(&gen_word(rng, alpha));
+  }
+  t
+}
+
+/// the pattern of `highlight_fragments`: phrase alternatives first, then the terms
+fn build_regex(phrases: &[Vec<String>], terms: &[String]) -> Option<Regex> {
+  let mut pats: Vec<String> = Vec::new();
+  for ph in phrases.iter().filter(|p| !p.is_empty()) {
+    let joined = ph.iter().map(|p| regex::escape(p)).collect::<Vec<_>>().join(r"\W+");
+    pats.push(format!(r"\b{joined}\b"));
+  }
+  pats.extend(terms.iter().filter(|t| !t.is_empty()).map(|t| format!(r"\b{}\b", regex::escape(t))));
+  if pats.is_empty() {
+    return None;
+  }
+  RegexBuilder::new(&pats.join("|")).case_insensitive(true).build().ok()
+}
+
+fn dedup(v: Vec<String>) -> Vec<String> {
+  let mut seen = std::collections::HashSet::new();
+  v.into_iter().filter(|t| seen.insert(t.clone())).collect()
+}
+
+struct Frag<'a> {
+  what: &'static str,
+  s: &'a str,
+  size: usize,
+  pre: &'a str,
+  post: &'a str,
+  /// index of the visited match this fragment belongs to
+  k: usize,
+}
+
+/// `(start, end)` of the fragment window as `index/highlight.rs` computes it
+fn window(mstart: usize, size: usize, len: usize) -> (usize, usize) {
+  let s = mstart.saturating_sub(size / 2);
+  (s, len.min(s.saturating_add(size)))
+}
+
+/// the `find_at` iteration of the loop: (offset, match) pairs
+fn visit(re: &Regex, text: &str, n: usize) -> Vec<(usize, (usize, usize))> {
+  let mut out = Vec::new();
+  let mut off = 0usize;
+  for _ in 0..n {
+    match re.find_at(text, off) {
+      Some(m) => {
+        out.push((off, (m.start(), m.end())));
+        off = m.end();
+      }
+      None => break,
+    }
+  }
+  out
+}
+
+/// ask the model: first the raw slices (empty re-match table), then the real regex on each
+/// slice, then the tagged fragments.  Returns (fragments as bytes, on_boundary flags, hypotheses ok).
+fn model_fragments(drv: &mut Driver, re: &Regex, text: &str, visited: &[(usize, (usize, usize))], size: usize, nfrag: usize, pre: &str, post: &str, snippet: bool, has_pattern: bool) -> Result<(Vec<Vec<u8>>, Vec<bool>, Vec<String>), String> {
+  let find: Vec<Value> = visited.iter().map(|(o, (s, e))| json!([o, s, e])).collect();
+  let base = json!({"op": "highlight", "text": hex(text.as_bytes()), "find": find, "size": size, "nfrag": nfrag, "pre": hex(pre.as_bytes()), "post": hex(post.as_bytes()), "snippet": snippet, "has_pattern": has_pattern});
+  let mut r0 = base.clone();
+  r0["rematch"] = json!([]);
+  let m0 = drv.call("C21", r0);
+  if m0["ok"] != json!(true) {
+    return Err(format!("model: {m0}"));
+  }
+  let mut table = Vec::new();
+  let mut hyp = Vec::new();
+  let slices: Vec<Vec<u8>> = m0["untagged"].as_array().map(|a| a.iter().map(|h| unhex(h.as_str().unwrap_or(""))).collect()).unwrap_or_default();
+  for sl in slices.iter() {
+    let Ok(st) = std::str::from_utf8(sl) else {
+      return Err("model slice is not UTF-8 although `get` succeeded".into());
+    };
+    let spans: Vec<Value> = re.find_iter(st).map(|m| json!([m.start(), m.end()])).collect();
+    if !st.is_empty() && spans.is_empty() {
+      hyp.push(format!("re_finds: no match inside the non-empty fragment {st:?}"));
+    }
+    table.push(json!([hex(sl), spans]));
+  }
+  let mut r1 = base;
+  r1["rematch"] = Value::Array(table);
+  let m1 = drv.call("C21", r1);
+  if m1["ok"] != json!(true) {
+    return Err(format!("model: {m1}"));
+  }
+  if m1["spans_ok"].as_array().map(|a| a.iter().any(|b| b != &json!(true))).unwrap_or(true) {
+    hyp.push("re_spans: regex spans inside a fragment are not ordered/disjoint/non-empty/in range".into());
+  }
+  let frags = m1["fragments"].as_array().map(|a| a.iter().map(|h| unhex(h.as_str().unwrap_or(""))).collect()).unwrap_or_default();
+  let onb = m1["on_boundary"].as_array().map(|a| a.iter().map(|b| b.as_bool().unwrap_or(false)).collect()).unwrap_or_default();
+  Ok((frags, onb, hyp))
+}
+
+impl Prop for C21 {
   fn id(&self) -> &'static str {
     "C21"
   }
   fn rule(&self) -> &'static str {
-    "stub"
+    "case = (3..8 documents of 2..40 words over one of four alphabets: ASCII | ASCII+Latin-1 | ASCII+CJK | all incl. emoji, optionally led by a long multi-byte run; query = 1..2 distinct words of one document as query string / term / bool-should, or (1 in 5) a two-word phrase of adjacent words as bool{must phrase, should term}; highlight on `body` with fragment_size in [2*max query word bytes, 80], number_of_fragments 1..4, tags <em> | [[ ]] | default; highlight_field snippet in the same request); one evaluation per hit; non-trivial when a fragment or snippet was returned for the hit and the first window does not cover the whole text; distinct = distinct (case, hit id) JSON"
   }
-  fn count(&self, _tier: Tier) -> usize {
-    0
+  fn count(&self, tier: Tier) -> usize {
+    tier.pick(1500, 60000)
   }
-  fn gen(&self, _rng: &mut Rng, _tier: Tier, _i: usize) -> Value {
-    json!(null)
+  fn gen(&self, rng: &mut Rng, _tier: Tier, i: usize) -> Value {
+    let alpha = i % 4;
+    let ndocs = 3 + rng.below(6);
+    let docs: Vec<Value> = (0..ndocs).map(|d| json!({"_id": format!("d{d}"), "body": gen_text(rng, alpha)})).collect();
+    // query words: from one document's own words (alphanumeric runs)
+    let src = docs[rng.below(ndocs)]["body"].as_str().unwrap().to_string();
+    let mut words: Vec<String> = src.split(|c: char| !c.is_alphanumeric()).filter(|w| !w.is_empty()).map(|w| w.to_string()).collect();
+    words.sort();
+    words.dedup_by(|a, b| a.to_lowercase() == b.to_lowercase());
+    rng.shuffle(&mut words);
+    // keep query-string operators out of the query
+    words.retain(|w| !["and", "or", "not", "to"].contains(&w.to_lowercase().as_str()));
+    if words.is_empty() {
+      words.push("rust".into());
+    }
+    let nq = 1 + rng.below(2.min(words.len()));
+    let mut qw: Vec<String> = words[..nq].to_vec();
+    let mut qkind = rng.below(3);
+    let mut maxlen = qw.iter().map(|w| w.len()).max().unwrap_or(1);
+    // 1 case in 5: a phrase of two adjacent words of the source document (bool must phrase +
+    // should term of its first word, which supplies the scored postings)
+    let seq: Vec<String> = src.split(|c: char| !c.is_alphanumeric()).filter(|w| !w.is_empty()).map(|w| w.to_string()).collect();
+    let mut phrase = Value::Null;
+    if rng.chance(1, 5) && seq.len() >= 2 {
+      let k = rng.below(seq.len() - 1);
+      phrase = json!([seq[k], seq[k + 1]]);
+      qw = vec![seq[k].clone()];
+      qkind = 3;
+      maxlen = seq[k].len() + seq[k + 1].len() + 3;
+    }
+    let lo = 2 * maxlen;
+    let size = match rng.below(4) {
+      0 => lo,
+      1 => lo + 1,
+      _ => lo + rng.below(81usize.saturating_sub(lo).max(1)),
+    };
+    let nfrag = 1 + rng.below(4);
+    let tags = match rng.below(3) {
+      0 => json!(["<em>", "</em>"]),
+      1 => json!(["[[", "]]"]),
+      _ => Value::Null,
+    };
+    json!({"docs": docs, "words": qw, "phrase": phrase, "qkind": qkind, "size": size, "nfrag": nfrag, "tags": tags})
   }
-  fn run_case(&self, _drv: &mut Driver, _case: &Value, _s: &mut Summary) {}
+
+  fn run_case(&self, drv: &mut Driver, case: &Value, s: &mut Summary) {
+    let only = case.get("only").and_then(|c| c.as_str()).map(|c| c.to_string());
+    let case = if only.is_some() { &case["case"] } else { case };
+    let docs: Vec<Value> = case["docs"].as_array().cloned().unwrap_or_default();
+    let words: Vec<String> = case["words"].as_array().map(|a| a.iter().map(|w| w.as_str().unwrap_or("").to_string()).collect()).unwrap_or_default();
+    let size = case["size"].as_u64().unwrap_or(40) as usize;
+    let nfrag = case["nfrag"].as_u64().unwrap_or(1) as usize;
+    let (pre, post) = match case["tags"].as_array() {
+      Some(a) => (a[0].as_str().unwrap_or("<em>").to_string(), a[1].as_str().unwrap_or("</em>").to_string()),
+      None => ("<em>".to_string(), "</em>".to_string()),
+    };
+    let phrase_words: Vec<String> = case["phrase"].as_array().map(|a| a.iter().map(|w| w.as_str().unwrap_or("").to_string()).collect()).unwrap_or_default();
+    let query = match case["qkind"].as_u64().unwrap_or(0) {
+      3 if !phrase_words.is_empty() => json!({"type": "bool", "must": [{"type": "phrase", "field": "body", "terms": phrase_words}], "should": words.iter().map(|w| json!({"type": "term", "field": "body", "value": w})).collect::<Vec<_>>()}),
+      1 if words.len() == 1 => json!({"type": "term", "field": "body", "value": words[0]}),
+      2 => json!({"type": "bool", "should": words.iter().map(|w| json!({"type": "term", "field": "body", "value": w})).collect::<Vec<_>>()}),
+      _ => json!(words.join(" ")),
+    };
+    let mut hf = json!({"fragment_size": size, "number_of_fragments": nfrag});
+    if case["tags"].is_array() {
+      hf["pre_tag"] = json!(pre);
+      hf["post_tag"] = json!(post);
+    }
+    let req = json!({"query": query, "limit": 20, "return_stored": true, "highlight_field": "body", "highlight": {"fields": {"body": hf}}});
+
+    let dir = scratch();
+    let schema_v = schema_json();
+    let resp = (|| -> Result<Value, String> {
+      let index = idx::create(dir.path(), &schema_v, true)?;
+      idx::add_commit(&index, &docs)?;
+      let reader = index.reader().map_err(|e| e.to_string())?;
+      match idx::search(&reader, &req) {
+        idx::Outcome::Ok(v) => Ok(v),
+        o => Err(format!("search: {}", o.to_json())),
+      }
+    })();
+    let resp = match resp {
+      Ok(v) => v,
+      Err(e) => {
+        s.fail("highlight.error", "index build or search with highlight failed", case, json!(e));
+        return;
+      }
+    };
+    // highlight terms as the reader derives them: analysed query tokens, first-seen order; for
+    // the per-field highlight each is analysed again with the field's search analyzer
+    let schema = match idx::schema(&schema_v) {
+      Ok(x) => x,
+      Err(_) => return,
+    };
+    let an = match schema.build_analyzers() {
+      Ok(a) => a,
+      Err(_) => return,
+    };
+    let sa = an.search_analyzer("body").expect("analyzer");
+    let hl_terms: Vec<String> = dedup(words.iter().flat_map(|w| sa.analyze(w).into_iter().map(|t| t.text)).collect());
+    let field_terms: Vec<String> = dedup(hl_terms.iter().flat_map(|w| sa.analyze(w).into_iter().map(|t| t.text)).collect());
+    // phrases: every phrase term analysed with the field's search analyzer (`normalize_phrase_terms`)
+    let phrases: Vec<Vec<String>> = if phrase_words.is_empty() {
+      Vec::new()
+    } else {
+      let seq: Vec<String> = phrase_words.iter().flat_map(|w| sa.analyze(w).into_iter().map(|t| t.text)).collect();
+      if seq.is_empty() { vec![phrase_words.clone()] } else { vec![seq] }
+    };
+    if !phrases.is_empty() {
+      s.count("phrase_query");
+    }
+    let re_field = build_regex(&phrases, &field_terms);
+    let re_snip = build_regex(&phrases, &hl_terms);
+    let maxlen_terms = field_terms.iter().map(|t| t.len()).max().unwrap_or(0);
+
+    let hits = resp["hits"].as_array().cloned().unwrap_or_default();
+    if hits.is_empty() {
+      s.count("no_hits");
+    }
+    for h in hits.iter() {
+      let id = h["doc_id"].as_str().unwrap_or("").to_string();
+      if only.as_ref().map(|o| *o != id).unwrap_or(false) {
+        continue;
+      }
+      let sub = json!({"case": case, "only": id});
+      let Some(text) = docs.iter().find(|d| d["_id"] == json!(id)).and_then(|d| d["body"].as_str()) else {
+        s.fail("highlight.unknown-hit", "hit id is not a document of the corpus", &sub, json!(id));
+        continue;
+      };
+      if h["fields"]["body"].as_str() != Some(text) {
+        s.fail("highlight.stored-text", "stored field text of the hit differs from the indexed document", &sub, h["fields"].clone());
+        continue;
+      }
+      let frags: Vec<String> = h["highlights"]["body"].as_array().map(|a| a.iter().map(|f| f.as_str().unwrap_or("").to_string()).collect()).unwrap_or_default();
+      let snippet: Option<String> = h["snippet"].as_str().map(|x| x.to_string());
+      // the regex engine's view of the text (inputs of the model, also used for signatures)
+      let vis_f = re_field.as_ref().map(|re| visit(re, text, nfrag)).unwrap_or_default();
+      let vis_s = re_snip.as_ref().map(|re| visit(re, text, 1)).unwrap_or_default();
+      let first_window = vis_f.first().map(|(_, (ms, _))| window(*ms, size, text.len()));
+      let nontrivial = (!frags.is_empty() || snippet.is_some()) && first_window.map(|(a, b)| a > 0 || b < text.len()).unwrap_or(false);
+      s.case(&sub, nontrivial);
+      s.count(if text.is_ascii() { "text_ascii" } else { "text_multibyte" });
+      s.add("fragments_returned", frags.len() as u64);
+      if snippet.is_some() {
+        s.count("snippet_returned");
+      }
+      // the property's premise: fragment size >= 2 * matched text (bytes; all visited matches)
+      let premise_f = vis_f.iter().all(|(_, (a, b))| 2 * (b - a) <= size) && 2 * maxlen_terms <= size;
+      let premise_s = vis_s.iter().all(|(_, (a, b))| 2 * (b - a) <= 120);
+      if !premise_f {
+        s.count("premise_false_size_lt_2x_match");
+      }
+
+      // ---------------- finder: the five clauses on the implementation alone ----------------
+      let mut items: Vec<Frag> = Vec::new();
+      if premise_f {
+        for (k, f) in frags.iter().enumerate() {
+          items.push(Frag { what: "highlight", s: f, size, pre: &pre, post: &post, k });
+        }
+      }
+      if premise_s {
+        if let Some(sn) = snippet.as_ref() {
+          items.push(Frag { what: "snippet", s: sn, size: 120, pre: "**", post: "**", k: 0 });
+        }
+      }
+      if premise_f && frags.len() > nfrag {
+        s.fail("highlight.too-many-fragments", "more than number_of_fragments fragments returned for the field", &sub, json!({"fragments": frags, "number_of_fragments": nfrag}));
+      }
+      for it in items.iter() {
+        let vis = if it.what == "snippet" { &vis_s } else { &vis_f };
+        // signature predicate of the known finding: the window of this fragment's match starts
+        // or ends inside a multi-byte character
+        let off_boundary = vis.get(it.k).map(|(_, (ms, _))| {
+          let (a, b) = window(*ms, it.size, text.len());
+          !text.is_char_boundary(a) || !text.is_char_boundary(b)
+        }).unwrap_or(false);
+        let mut bad: Vec<&'static str> = Vec::new();
+        if it.s.is_empty() {
+          bad.push("empty-fragment");
+        }
+        // `pre X post` with non-empty X (for the snippet pre == post == "**"), and X is, as a
+        // whole, a match of the query's terms/phrases
+        let re_it = if it.what == "snippet" { re_snip.as_ref() } else { re_field.as_ref() };
+        let tagged_x: Option<&str> = it.s.find(it.pre).and_then(|p| {
+          let rest = &it.s[p + it.pre.len()..];
+          rest.find(it.post).map(|q| &rest[..q])
+        });
+        let tagged = tagged_x.map(|x| !x.is_empty()).unwrap_or(false);
+        if tagged {
+          let x = tagged_x.unwrap_or("");
+          let whole = re_it.and_then(|re| re.find(x)).map(|m| m.start() == 0 && m.end() == x.len()).unwrap_or(false);
+          if !whole {
+            bad.push("tagged-text-not-a-match");
+          }
+        }
+        if !tagged {
+          bad.push("no-tagged-match");
+        }
+        let untagged = if it.pre == it.post { it.s.replace(it.pre, "") } else { it.s.replace(it.pre, "").replace(it.post, "") };
+        if !text.contains(&untagged) {
+          bad.push("not-substring");
+        }
+        if untagged.chars().count() > it.size {
+          bad.push("too-long");
+        }
+        for b in bad {
+          let obs = json!({"kind": it.what, "fragment": it.s, "fragment_index": it.k, "text": text, "size": it.size, "window_off_char_boundary": off_boundary});
+          if off_boundary {
+            s.fail("highlight.non-boundary-slice", "a fragment is empty / has no tagged match because the byte window around the match starts or ends inside a multi-byte character (text.get(start..end) fails)", &sub, obs);
+          } else {
+            s.fail(&format!("highlight.{b}"), "a returned fragment violates the well-formedness clause named in the signature", &sub, obs);
+          }
+        }
+      }
+
+      // ---------------- correspondence with the model ----------------
+      if let Some(re) = re_field.as_ref() {
+        match model_fragments(drv, re, text, &vis_f, size, nfrag, &pre, &post, false, true) {
+          Ok((mf, _onb, hyp)) => {
+            let imp: Vec<Vec<u8>> = frags.iter().map(|f| f.as_bytes().to_vec()).collect();
+            if mf != imp {
+              s.disagree("highlight.fragments", &sub, json!({"fragments": frags}), json!({"fragments": mf.iter().map(|b| String::from_utf8_lossy(b).to_string()).collect::<Vec<_>>()}));
+            }
+            s.traces_validated += 1;
+            if premise_f {
+              for hmsg in hyp {
+                // a fragment that contains its match but in which the regex finds nothing
+                s.disagree("highlight.hypothesis", &sub, json!({"fragments": frags}), json!(hmsg));
+              }
+            }
+          }
+          Err(e) => s.disagree("highlight.model-error", &sub, json!({"fragments": frags}), json!(e)),
+        }
+      }
+      if let Some(re) = re_snip.as_ref() {
+        match model_fragments(drv, re, text, &vis_s, 120, 1, "**", "**", true, true) {
+          Ok((mf, _, _)) => {
+            let imp: Vec<Vec<u8>> = snippet.iter().map(|f| f.as_bytes().to_vec()).collect();
+            if mf != imp {
+              s.disagree("highlight.snippet", &sub, json!({"snippet": snippet}), json!({"snippet": mf.iter().map(|b| String::from_utf8_lossy(b).to_string()).collect::<Vec<_>>()}));
+            }
+          }
+          Err(e) => s.disagree("highlight.model-error", &sub, json!({"snippet": snippet}), json!(e)),
+        }
+      }
+    }
+  }
+  fn finish(&self, _tier: Tier, s: &mut Summary) {
+    s.notes.push("regex results (find_at on the text, matches inside each fragment) are inputs of the model and come from the real regex crate; traces_validated = hits whose RegexOk hypotheses were evaluated".into());
+  }
 }
